@@ -40,9 +40,11 @@ VARIABLES
     zw,      \* ghost (known-finding family D4): a call blocked in a quiescent state during a zero-window
              \* stall, a sender's retransmit budget was charged while the peer advertised a zero
              \* window, or a full receiver discarded in-order data
+    rwd,     \* ghost (known-finding family KT1): a cumulative ACK for bytes that were sent before a
+             \* go-back-N rewind (ack - snd_una > snd_nxt - snd_una) was discarded as invalid
     last     \* label of the action taken + what it returned (behaviour extraction)
 
-ivars == <<ks, wire, cl, sv, lh, pfx, zw>>
+ivars == <<ks, wire, cl, sv, lh, pfx, zw, rwd>>
 vars  == <<pvars, ivars, last>>
 
 ---------------------------------------------------------------------------
@@ -360,6 +362,7 @@ Init ==
     /\ lh = [st |-> "none", fd |-> 0]
     /\ pfx = 1
     /\ zw = FALSE
+    /\ rwd = FALSE
     /\ last = [a |-> "init"]
 
 \* After Deliver / Egress the harness polls every pending connect future, in
@@ -379,7 +382,7 @@ Listen ==
        /\ lh' = [st |-> "up", fd |-> ks[2].nfd]
        /\ P_Listen(LPort, ObsOf(ks'))
     /\ last' = [a |-> "listen", port |-> LPort]
-    /\ UNCHANGED <<wire, cl, sv, zw>>
+    /\ UNCHANGED <<wire, cl, sv, zw, rwd>>
 
 DropListener ==
     /\ "droplistener" \in Ops /\ lh.st = "up"
@@ -387,7 +390,7 @@ DropListener ==
     /\ lh' = [lh EXCEPT !.st = "down"]
     /\ P_DropListener(ObsOf(ks'))
     /\ last' = [a |-> "droplistener"]
-    /\ UNCHANGED <<wire, cl, sv, zw>>
+    /\ UNCHANGED <<wire, cl, sv, zw, rwd>>
 
 Connect(c) ==
     /\ "connect" \in Ops /\ c = natt + 1 /\ c \in Ports
@@ -395,7 +398,7 @@ Connect(c) ==
     /\ cl' = [cl EXCEPT ![c] = [st |-> "pending", fd |-> ks[1].nfd]]
     /\ P_ConnectStart(c, ObsOf(ks'))
     /\ last' = [a |-> "connect", c |-> c]
-    /\ UNCHANGED <<wire, sv, lh, zw>>
+    /\ UNCHANGED <<wire, sv, lh, zw, rwd>>
 
 Cancel(c) ==
     /\ "cancel" \in Ops /\ c \in Ports /\ cl[c].st = "pending"
@@ -403,7 +406,7 @@ Cancel(c) ==
     /\ cl' = [cl EXCEPT ![c].st = "cancelled"]
     /\ P_Cancel(c, ObsOf(ks'))
     /\ last' = [a |-> "cancel", c |-> c]
-    /\ UNCHANGED <<wire, sv, lh, zw>>
+    /\ UNCHANGED <<wire, sv, lh, zw, rwd>>
 
 Accept ==
     /\ "accept" \in Ops /\ lh.st = "up"
@@ -414,7 +417,7 @@ Accept ==
           /\ sv' = [sv EXCEPT ![ch.rp] = [st |-> "held", fd |-> fd]]
           /\ P_Accept(ch.rp, ch.lp, ObsOf(ks'))
           /\ last' = [a |-> "accept", pp |-> ch.rp, lp |-> ch.lp]
-    /\ UNCHANGED <<wire, cl, lh, zw>>
+    /\ UNCHANGED <<wire, cl, lh, zw, rwd>>
 
 \* known-finding family D4 (a): a sender has bytes (or its FIN) to send, nothing in flight, and a
 \* closed window; the receiver will not advertise again (reads below cap/2) and there is no probe.
@@ -435,7 +438,7 @@ Write(e, data) ==
        /\ P_Write(e, data, r.res, r.n, ObsOf(ks'))
        /\ zw' = (zw \/ (r.res = "wouldblock" /\ Quiescent /\ StallNow))
        /\ last' = [a |-> "write", p |-> e[1], side |-> e[2], data |-> data, res |-> r.res, n |-> r.n]
-    /\ UNCHANGED <<wire, cl, sv, lh>>
+    /\ UNCHANGED <<wire, cl, sv, lh, rwd>>
 
 WriteMC(e, n) ==
     /\ ep[e].nw + n <= MaxBytes
@@ -448,7 +451,7 @@ Read(e, n) ==
        /\ P_Read(e, n, r.res, r.bytes, ObsOf(ks'))
        /\ zw' = (zw \/ (r.res = "wouldblock" /\ Quiescent /\ StallNow))
        /\ last' = [a |-> "read", p |-> e[1], side |-> e[2], n |-> n, res |-> r.res, bytes |-> r.bytes]
-    /\ UNCHANGED <<wire, cl, sv, lh>>
+    /\ UNCHANGED <<wire, cl, sv, lh, rwd>>
 
 \* exhaustive exploration: a read that would block changes nothing; it is only
 \* interesting (and only taken) in a quiescent state, where the PropSpec judges it
@@ -464,7 +467,7 @@ Shutdown(e) ==
        /\ ks' = [ks EXCEPT ![h] = r.k]
        /\ P_Shutdown(e, r.res, ObsOf(ks'))
        /\ last' = [a |-> "shutdown", p |-> e[1], side |-> e[2], res |-> r.res]
-    /\ UNCHANGED <<wire, cl, sv, lh, zw>>
+    /\ UNCHANGED <<wire, cl, sv, lh, zw, rwd>>
 
 ShutdownMC(e) == ep[e].wfin = "open" /\ Shutdown(e)
 
@@ -475,7 +478,7 @@ Close(e) ==
                      ELSE sv' = [sv EXCEPT ![e[1]].st = "dropped"] /\ cl' = cl
     /\ P_Close(e, ObsOf(ks'))
     /\ last' = [a |-> "close", p |-> e[1], side |-> e[2]]
-    /\ UNCHANGED <<wire, lh, zw>>
+    /\ UNCHANGED <<wire, lh, zw, rwd>>
 
 \* lo_*: the socket is bound to 127.0.0.1 instead of the host's address; the datagram still
 \* crosses the link, so the limit is that of the destination path, not loopback_mtu
@@ -493,7 +496,7 @@ Udp(n, mode) ==
        IN /\ ks' = [ks EXCEPT ![1] = IF tooBig THEN k1 ELSE Emit(k1, p)]
           /\ P_Udp(n, IF tooBig THEN "err" ELSE "ok", IF tooBig THEN 0 ELSE 1, ObsOf(ks'))
           /\ last' = [a |-> "udp", n |-> n, mode |-> mode, res |-> IF tooBig THEN "err" ELSE "ok"]
-    /\ UNCHANGED <<wire, cl, sv, lh, zw>>
+    /\ UNCHANGED <<wire, cl, sv, lh, zw, rwd>>
 \* exhaustive exploration: at most two probes, before any connect
 UdpMC(n, mode) == ks[1].nfd <= 2 /\ natt = 0 /\ Udp(n, mode)
 
@@ -520,6 +523,18 @@ ZwDiscard(k, p) ==
        /\ LET s == k.socks[i] IN
           s.st \in OpenStates /\ p.seq = s.rnxt /\ ~s.pfin /\ Len(s.rb) >= RecvCap
 
+\* known-finding family KT1: check_retx rewinds snd_nxt to snd_una and segment_one re-sends only
+\* what the window allows; an ACK that covers bytes sent before the rewind then has
+\* acked > snd_nxt - snd_una and handle_established drops it as invalid (there is no SND.MAX)
+AckBeyondRewind(k, p) ==
+    /\ ~Has(p, "U") /\ ~Has(p, "R") /\ Has(p, "A")
+    /\ LET i == ConnIdx(k, p.dp, p.sp) IN
+       /\ i # 0
+       /\ LET s == k.socks[i] IN
+          /\ s.st \in OpenStates
+          /\ p.ack - s.una > s.nxt - s.una
+          /\ p.ack - s.una <= Len(s.sb) + (IF s.fseq # -1 THEN 1 ELSE 0)
+
 \* EnterGuard::egress_all: host 1 then host 2; packets already in flight age by one round
 EgressAll ==
     /\ \A i \in 1..Len(wire) : wire[i].age < MaxAge
@@ -532,7 +547,7 @@ EgressAll ==
           /\ P_Egress(pk, Len(w2), MaxAgeOf(w2), ObsOf(ks'))
           /\ zw' = (zw \/ ZwAbortIn(ks[1], r1.k) \/ ZwAbortIn(ks[2], r2.k))
           /\ last' = [a |-> "egress", pk |-> pk]
-    /\ UNCHANGED <<cl, sv, lh>>
+    /\ UNCHANGED <<cl, sv, lh, rwd>>
 
 Deliver(i) ==
     /\ i \in 1..Len(wire)
@@ -541,6 +556,7 @@ Deliver(i) ==
        /\ ks' = [ks EXCEPT ![p.dst] = DeliverK(ks[p.dst], p)]
        /\ P_Deliver(p, wire[i].age, ObsOf(ks'))
        /\ zw' = (zw \/ ZwDiscard(ks[p.dst], p))
+       /\ rwd' = (rwd \/ AckBeyondRewind(ks[p.dst], p))
        /\ last' = [a |-> "deliver", i |-> i, p |-> p]
     /\ UNCHANGED <<cl, sv, lh>>
 
@@ -555,14 +571,14 @@ Poll(c) ==
           /\ cl' = [cl EXCEPT ![c].st = IF r.res = "ok" THEN "held" ELSE "err"]
           /\ P_ConnectDone(c, r.res, lp, pp, ObsOf(ks'))
           /\ last' = [a |-> "poll", c |-> c, res |-> r.res, lp |-> lp, pp |-> pp]
-    /\ UNCHANGED <<wire, sv, lh, zw>>
+    /\ UNCHANGED <<wire, sv, lh, zw, rwd>>
 
 DropPk(i) ==
     /\ i \in 1..Len(wire) /\ drops < MaxDrops
     /\ wire' = [j \in 1..(Len(wire) - 1) |-> IF j < i THEN wire[j] ELSE wire[j + 1]]
     /\ P_Drop(wire[i].p, ObsOf(ks))
     /\ last' = [a |-> "drop", i |-> i, p |-> wire[i].p]
-    /\ UNCHANGED <<ks, cl, sv, lh, zw>>
+    /\ UNCHANGED <<ks, cl, sv, lh, zw, rwd>>
 
 ---------------------------------------------------------------------------
 \* Forced prefix: the canonical handshake of attempt 1 (SYN, SYN-ACK and ACK are
@@ -617,6 +633,10 @@ Dev_ZeroWindowStall == StallNow
 Dev_ZeroWindowAbort == zw
 ProgressOrKnown == ok.prog \/ Dev_ZeroWindowAbort
 AbortOrKnown    == ok.abort \/ Dev_ZeroWindowAbort
+\* with the second recorded family (only used while known_findings.json lists KT1)
+Dev_AckBeyondRewind == rwd
+ProgressOrKnown2 == ok.prog \/ zw \/ rwd
+AbortOrKnown2    == ok.abort \/ zw \/ rwd
 
 ---------------------------------------------------------------------------
 (* Structural invariants of the implementation model *)
